@@ -97,13 +97,15 @@ var RuleIdFileNameRegex = regexp.MustCompile(`^(\d{6})(?:-chain(\d+))?(?:\.ra)?$
 // in the tests directory (e.g., a file that is just named like a rule ID) are not test files.
 var RuleIdTestFileNameRegex = regexp.MustCompile(`^(\d{6})\.ya?ml$`)
 
-// TestIdRegex matches any test_id line in test YAML files (test_id: <ID>).
+// TestIdRegex matches any test_id line in test YAML files (test_id: <ID>): the key at the start
+// of the line (after the indentation and an optional list dash), not a mention of it in a
+// comment or in the value of another key.
 // Everything up to the value of the test ID is captured in group 1, test ID in group 2.
-var TestIdRegex = regexp.MustCompile(`(.*test_id:)\s+(.*$)`)
+var TestIdRegex = regexp.MustCompile(`^(\s*(?:-\s+)?test_id:)\s+(.*$)`)
 
 // TestTitleRegex matches any test_title line in test YAML files (test_title: "<title>").
 // Everything up to the value of the test title is captured in group 1, test title in group 2.
-var TestTitleRegex = regexp.MustCompile(`(.*test_title:)\s+(.*$)`)
+var TestTitleRegex = regexp.MustCompile(`^(\s*(?:-\s+)?test_title:)\s+(.*$)`)
 
 // DefinitionReferenceRegex matches any reference to a definition.
 // The matched reference name will be captured in group 1.
